@@ -39,12 +39,16 @@ REQUIRED_BRANCHES = ['filter_increasing_nu', 'filter_decreasing_nu', 'sed_increa
                      'package_cube_memmap_off', 'package_unit_mJy', 'package_unit_Jy', 'package_unit_cgs',
                      'grid_unit_Hz', 'grid_unit_GHz', 'grid_unit_THz', 'filter_nu_unit_Hz', 'filter_nu_unit_GHz',
                      'filter_nu_unit_THz', 'file_wav_increasing', 'file_wav_decreasing',
-                     'file_asymmetric', 'notch_filter', 'rebinned_interior_zero', 'package_cube_interior_zero', 'package_files_interior_zero',
+                     'file_asymmetric', 'response_dtype_f8', 'response_dtype_f4', 'response_dtype_i8', 'response_dtype_i4', 'low_frequency_filter',
+                     'integer_response_low_frequency', 'notch_filter', 'rebinned_interior_zero', 'package_cube_interior_zero', 'package_files_interior_zero',
                      'hist_normalize', 'hist_assign_response', 'hist_assign_both', 'hist_grid']
 ASSUMPTIONS = ['IEEE rounding is not modelled: responses compared within 1e-9 of sum|R_i|, fluxes within 1e-9 of '
                'sum|F_i R_i|, variances within 4e-9 relative',
                'filter frequencies strictly monotonic, SED frequencies strictly monotonic, all values finite '
                '(integrate() replacing NaN by 0 in place is outside the quantifier)',
+               'in-memory filters may hold their response samples as int64 / int32 / float32 / float64; the model gets the exact '
+               'stored values; for float32 samples the unchanged code interpolates and sums in single precision (observed up to '
+               '3e-8 of sum|R|), so those curves and their convolved fluxes are compared within 1e-6',
                'a filter whose responses are all zero re-bins to zeros (checked, not normalised); Filter.normalize of such a '
                'filter is 0/0 (NaN responses on the unchanged tree) and is outside the quantifier',
                'cube packages hold spectral flux densities (Jy, mJy): _convolve_model_dir_2 scales with val.unit.to(mJy), which '
@@ -59,6 +63,10 @@ SIZES_F = [2, 2, 3, 3, 4, 5, 6, 8, 10, 12, 16, 20, 30, 45, 60]
 GRID_KINDS = ['cover_coarse', 'cover_fine', 'partial_low', 'partial_high', 'inside', 'any']
 EDGE_KINDS = ['first_on_end', 'last_on_end', 'both_on_ends', 'mid_on_node', 'mid_on_end']
 FREQ_FACTOR = {'Hz': 1., 'GHz': 1e9, 'THz': 1e12}
+R_DTYPES = {'f8': np.float64, 'f4': np.float32, 'i8': np.int64, 'i4': np.int32}
+# single-precision samples: the code's own interpolation / trapezium arithmetic is then carried out in float32
+# (eps = 2**-23), so those curves are compared within 1e-6 instead of 1e-9
+TOL_R = {'f8': 1e-9, 'f4': 1e-6, 'i8': 1e-9, 'i4': 1e-9}
 FLUX_UNITS = ['mJy', 'Jy', 'cgs']      # units the SED files of a package may be stored in
 
 
@@ -73,7 +81,7 @@ def _strict(xs):
 
 
 def gen_filter(rng, mode, n=None, zero_edges=None, order=None, normalize=None, nu_unit=None, allow_zero=False,
-               notch=None):
+               notch=None, r_dtype=None, lowfreq=False):
     n = n or rng.choice(SIZES_F)
     if notch is None:
         notch = n >= 8 and rng.random() < 0.2
@@ -90,7 +98,14 @@ def gen_filter(rng, mode, n=None, zero_edges=None, order=None, normalize=None, n
         base = nice(rng, 1e12, 1e15, 3)
         width = base * nice(rng, 0.02, 1.5, 2)
         q = 1e7 if width / n > 1e9 else 1e5
+        if lowfreq:
+            # a low-frequency curve (a few Hz ... kHz): the bin integrals are of order 1, not 1e10
+            base = nice(rng, 1., 1e3, 3)
+            width = base * nice(rng, 0.5, 3., 2)
+            q = 10. ** (math.floor(math.log10(width / n)) - 2)
         xs = _strict([round((base + width * c) / q) * q for c in cum])
+        if lowfreq:
+            xs = _strict([float('%.6g' % x) for x in xs])
     else:
         base = nice(rng, 0.3, 300., 3)
         width = base * nice(rng, 0.02, 1.5, 2)
@@ -153,6 +168,17 @@ def gen_filter(rng, mode, n=None, zero_edges=None, order=None, normalize=None, n
     central = float('%.4g' % (C_UM_HZ / xs[len(xs) // 2] if mode == 'nu' else xs[len(xs) // 2]))
     flt = dict(mode=mode, x=xs, r=rs, normalize=bool(normalize), central=central)
     if mode == 'nu':
+        # numeric type of the response samples handed to Filter(...): the model gets the exact stored values
+        flt['r_dtype'] = r_dtype or rng.choice(['f8', 'f8', 'f8', 'f4', 'i8', 'i4'])
+        if flt['r_dtype'] == 'f4':
+            flt['r'] = [float(np.float32(r)) for r in rs]
+        elif flt['r_dtype'] in ('i8', 'i4'):
+            top = max(rs)
+            ints = [float(int(round(9 * r / top))) for r in rs]
+            if not any(v > 0 for v in ints):
+                ints[rs.index(top)] = 1.
+            flt['r'] = ints
+        flt['lowfreq'] = bool(lowfreq)
         # the frequencies may be handed over in another frequency unit (the code converts with .to(u.Hz))
         flt['nu_unit'] = nu_unit or rng.choice(['Hz', 'Hz', 'GHz', 'THz'])
         if flt['nu_unit'] != 'Hz':
@@ -363,6 +389,17 @@ DIRECTED_NOTCH = [
     ('wav', 'dec', False, True, 'cover_fine', 'dec', 'hetero'),
     ('nu', 'dec', False, True, 'partial_low', 'inc', 'cube'),
 ]
+# response samples of other numeric types (in-memory filters), at ordinary and at low frequencies
+DIRECTED_DTYPE = [
+    # (dtype, low-frequency curve, normalize, grid kind, package)
+    ('i8', True, False, 'cover_fine', False), ('i4', True, False, 'cover_coarse', False),
+    ('i8', True, False, 'partial_low', True), ('i4', True, False, 'inside', 'cube'),
+    ('i8', False, False, 'cover_fine', False), ('i4', False, True, 'cover_fine', True),
+    ('i8', True, True, 'cover_fine', False),
+    ('f4', True, False, 'cover_fine', False), ('f4', False, True, 'cover_coarse', True),
+    ('f4', True, True, 'partial_high', 'cube'), ('f8', True, False, 'cover_fine', True),
+    ('f8', True, True, 'cover_tight', 'cube'),
+]
 HIST_OPS = ['normalize', 'assign_response', 'assign_response', 'assign_both', 'grid']
 HIST_DIRECTED = [['normalize'], ['assign_response', 'normalize'], ['assign_both'], ['grid', 'assign_response'], [],
                  ['normalize', 'grid'], ['assign_both', 'normalize', 'assign_response']]
@@ -389,7 +426,7 @@ def gen_step(rng, op, flt, nodes):
     return dict(op=op)
 
 
-def gen_case(rng, directed=None, small=False, hist=None, notch=None):
+def gen_case(rng, directed=None, small=False, hist=None, notch=None, r_dtype=None, lowfreq=None):
     if directed:
         mode, forder, zero, norm, gkind, gorder, with_pkg = directed
         n = rng.choice([2, 3, 5, 9]) if small else None
@@ -400,9 +437,13 @@ def gen_case(rng, directed=None, small=False, hist=None, notch=None):
         with_pkg = rng.random() < 0.3
         n = None
     exact = mode == 'nu' and gkind in EDGE_KINDS      # edges placed exactly on nodes need integer Hz values
+    if lowfreq and exact:
+        gkind, exact = 'cover_fine', False
     flt = gen_filter(rng, mode, n=n, zero_edges=zero, order=forder, normalize=norm,
                      nu_unit='Hz' if exact else None, allow_zero=not directed,
-                     notch=notch if notch is not None else (False if directed else None))
+                     notch=notch if notch is not None else (False if directed else None),
+                     r_dtype=r_dtype if r_dtype else ('f8' if directed else None),
+                     lowfreq=lowfreq if lowfreq is not None else (not exact and mode == 'nu' and rng.random() < 0.25))
     nodes = filter_nu_approx(flt)
     grid = gen_grid(rng, gkind, nodes, exact, order=gorder)
     grid_unit = 'Hz' if exact else rng.choice(['Hz', 'Hz', 'GHz', 'THz'])
@@ -430,6 +471,11 @@ def gen_cases(seed, tier):
         elif i < 2 * len(DIRECTED) + len(DIRECTED_NOTCH):
             k = i - 2 * len(DIRECTED)
             yield gen_case(rng, DIRECTED_NOTCH[k], hist=[[], ['normalize'], ['grid']][k % 3], notch='wide')
+        elif i < 2 * len(DIRECTED) + len(DIRECTED_NOTCH) + len(DIRECTED_DTYPE):
+            k = i - 2 * len(DIRECTED) - len(DIRECTED_NOTCH)
+            dt, lf, norm, gk, pkgf = DIRECTED_DTYPE[k]
+            yield gen_case(rng, ('nu', ['inc', 'dec'][k % 2], bool(k % 3 == 0), norm, gk, ['inc', 'dec'][(k // 2) % 2], pkgf),
+                           hist=[[], ['grid'], ['normalize']][k % 3], r_dtype=dt, lowfreq=lf)
         else:
             yield gen_case(rng)
 
@@ -464,7 +510,7 @@ def build_filter(flt, d):
     if flt['mode'] == 'nu':
         f = Filter(name='FLT', central_wavelength=flt['central'] * u.micron,
                    nu=np.array(flt['x'], dtype=float) * freq_unit(flt.get('nu_unit', 'Hz')),
-                   response=np.array(flt['r'], dtype=float))
+                   response=np.array(flt['r'], dtype=R_DTYPES[flt.get('r_dtype', 'f8')]))
     elif flt['mode'] == 'wav':
         f = pk.make_filter('FLT', flt['central'], flt['x'], flt['r'], normalize=False)
     else:
@@ -545,19 +591,20 @@ def property_on_rebin(flt, nus_held, grid, resp):
     want = exact_bins(nodes, grid)
     scale = sum(abs(w) for w in want)
     got = [Fraction(float(r)) for r in resp]
+    tol9 = Fraction(1, 10 ** 6) if flt.get('r_dtype') == 'f4' else Fraction(1, 10 ** 9)
     for i, (a, b) in enumerate(zip(got, want)):
-        if abs(a - b) > Fraction(1, 10 ** 9) * scale:
+        if abs(a - b) > tol9 * scale:
             return ('bin %d: Filter.rebin gives R_i = %r, exact integral of the response over the bin is %r '
                     '(sum|R| = %r)' % (i, float(a), float(b), float(scale)))
     if len(got) != len(want):
         return 'rebin returned %d responses for %d frequencies' % (len(got), len(want))
     total = exact_integral(nodes, min(Fraction(v) for v in grid), max(Fraction(v) for v in grid))
-    if abs(sum(got) - total) > Fraction(1, 10 ** 9) * abs(total):
+    if abs(sum(got) - total) > tol9 * abs(total):
         return ('conservation: sum_i R_i = %r, filter integral over the overlap = %r'
                 % (float(sum(got)), float(total)))
     if flt['normalize'] and min(grid) <= min(nus_held) and max(nus_held) <= max(grid):
         c = Fraction(7, 2)
-        if abs(sum(c * r for r in got) - c) > Fraction(1, 10 ** 9) * c:
+        if abs(sum(c * r for r in got) - c) > tol9 * c:
             return 'flat spectrum F=3.5 through a normalised filter inside the SED range gives %r' % float(sum(c * r for r in got))
     return None
 
@@ -589,6 +636,11 @@ def grid_branches(nus_held, grid, flt):
         b.add('normalized')
     if flt['mode'] == 'nu':
         b.add('filter_nu_unit_' + flt.get('nu_unit', 'Hz'))
+        b.add('response_dtype_' + flt.get('r_dtype', 'f8'))
+        if flt.get('lowfreq'):
+            b.add('low_frequency_filter')
+            if flt.get('r_dtype') in ('i8', 'i4') and not flt['normalize']:
+                b.add('integer_response_low_frequency')
     if not any(r > 0 for r in flt['r']):
         b.add('all_zero_filter')
     elif interior_zero(flt['r']):
@@ -623,7 +675,7 @@ def check_rebin(f, cur, grid_in, gunit, drv, label, info=None):
         bad = 'length: impl %d model %d' % (len(resp), len(model))
     else:
         for i, (a, m) in enumerate(zip(resp, model)):
-            if not (abs(float(a) - float(m)) <= 1e-9 * scale) or not np.isfinite(a):
+            if not (abs(float(a) - float(m)) <= TOL_R[cur.get('r_dtype', 'f8')] * scale) or not np.isfinite(a):
                 bad = ('bin %d (nu=%r): Filter.rebin R_i = %r, model (exact integral over the clipped bin) = %r, '
                        'sum|R| = %r' % (i, grid[i], float(a), float(m), scale))
                 break
@@ -648,11 +700,11 @@ def apply_filter_step(f, step, cur):
         if len(step['r']) != len(cur['r']):
             return None
         f.response = np.array(step['r'], dtype=float)
-        return dict(cur, r=list(step['r']), normalize=False)
+        return dict(cur, r=list(step['r']), normalize=False, r_dtype='f8')
     if op == 'assign_both':
         f.nu = np.array(step['x'], dtype=float) * u.Hz
         f.response = np.array(step['r'], dtype=float)
-        return dict(cur, nus=[float(v) for v in step['x']], r=list(step['r']), normalize=False)
+        return dict(cur, nus=[float(v) for v in step['x']], r=list(step['r']), normalize=False, r_dtype='f8')
     return cur
 
 
@@ -677,7 +729,8 @@ def run_case(case):
         branches.add('grid_unit_' + gunit)
         if why:
             return CaseResult(False, violates=True, branches=sorted(branches), detail=why)
-        cur = dict(mode=flt['mode'], nus=nus_held, r=list(flt['r']), normalize=flt['normalize'])
+        cur = dict(mode=flt['mode'], nus=nus_held, r=list(flt['r']), normalize=flt['normalize'],
+                   r_dtype=flt.get('r_dtype', 'f8'))
         bad, total, scale = check_rebin(f, cur, grid_in, gunit, drv, 'fresh filter', branches)
         if bad is not None:
             bad.branches = sorted(branches)
@@ -815,8 +868,9 @@ def run_package(case, f, flt, nus_held, d, drv):
             mv = t.rat()
             gf = float(got_flux[row, a])
             ge = float(got_err[row, a])
-            okf = abs(gf - float(mf)) <= 1e-9 * abs(float(mf)) and np.isfinite(gf)
-            okv = abs(ge * ge - float(mv)) <= 4e-9 * abs(float(mv)) and np.isfinite(ge)
+            tolr = TOL_R[flt.get('r_dtype', 'f8')]
+            okf = abs(gf - float(mf)) <= tolr * abs(float(mf)) and np.isfinite(gf)
+            okv = abs(ge * ge - float(mv)) <= 4 * tolr * abs(float(mv)) and np.isfinite(ge)
             if not (okf and okv):
                 return CaseResult(False, violates=True,
                                   detail=('model %s (#%d of %d in file order, %d wavelengths %r..%r) aperture %d: convolved file has '
